@@ -45,6 +45,12 @@ CLAIMED = {
  "C19": dict(cat="model_checking", tech=MC + " + run-wide non-interference table (differential oracle between states that agree on one auction)", ref="DESIGN.md §5 C19",
    text="histories over 2-3 concurrent auctions sharing auctioneer, bidders and denominations (crossed and twin), failed operations included: byte-level frame condition for every non-target auction around every transition, agreed terms before/after, id assignment, pairwise distinct escrow addresses, and a table keyed by (projection of X, actor balances, params, time, op) that flags different outcomes when only other auctions differ",
    note=TRUST + "; at most 3 concurrent auctions"),
+ "C15": dict(cat="model_checking", tech=MC + " + lock-step differential continuation of original and re-imported state", ref="DESIGN.md §5 C15",
+   text="at every distinct module state of the multi-auction, early-release batch and fixed lifecycle scenarios: ExportGenesis -> JSON -> Validate -> InitGenesis into the wiped store -> byte comparison of the seven collections -> lock-step continuation over every single menu op, every pair (thorough: triple) of later block instants and bid-then-block sequences",
+   note=TRUST + "; interpretation I7 (same state = the seven collections named by the statement; the rest is judged through identical evolution); bank balances are carried over as they are (the bank module's own genesis is trusted)"),
+ "C16": dict(cat="model_checking", tech=MC + " with a per-state query alphabet against a reference filter over the raw store dump", ref="DESIGN.md §5 C16",
+   text="is_matched flags vs contribution to the bidder's receipt and published matched price vs clearing price at every settlement (extended rounds with outbid provisional winners included), released flags vs payments, results frozen after settlement; in every distinct state of the query scenarios every by-id and list query with every filter combination and three pagination modes is compared with the stored objects",
+   note=TRUST + "; interpretation I6 (a bid received coins iff it contributed under price-then-id priority and its bidder received coins); two listed known findings (ListAllowedBidder / ListVestingQueue ignore auction_id) cannot be repaired without failing the repository's own unedited tests"),
  "C07": dict(cat="model_checking", tech=MC + " + exhaustive single-fault enumeration over the bank calls of every distinct effective block",
    ref="DESIGN.md §5 C07",
    text="(a) every explored state of the lifecycle and multi-auction scenarios x every later block instant: the module's registered block hook returns nil and does not panic; (b) for every distinct (state, block time) whose block calls the bank, each call index in turn returns an injected error and the hook must return an error wrapping it",
